@@ -16,6 +16,8 @@ import RvModel.Hand.Kernel
     kernel.n_parameters <kind> <tree>              ↦  <p>
     kernel.reparameterize <kind> <tree> L<k> <θ…>  ↦  L<p> parameters() of the new kernel | E:<Variant> <n> | E:ParameterOutOfBounds | PANIC
     kernel.consume_parameters <kind> <tree> L<k> <θ…>  ↦  L<p> parameters() of the new kernel  L<r> unconsumed values | E:… | PANIC
+    kernel.roundtrip <kind> <tree> <X>             ↦  k' = reparameterize(parameters()):  L<p> parameters() of k'  L<n·n> k'.covariance(X, X) | E:… | PANIC
+    spec.kernel.matern_closed <kind> <sel> <ℓ> <X> <X'>  ↦  L<n·m> textbook Matérn covariance, ν = 1/2 (sel 0), 3/2 (1), 5/2 (2)   (driver only)
 -/
 namespace HandDispatchC16
 open Wire Hand.Kernel
@@ -82,7 +84,15 @@ def tableC16 : List (String × Rd String) := [
     let _ ← Wire.next; let k ← rdK; let ps ← rdL rdF
     match consumeParameters k ps with
     | .ok (k', rest) => pure (wrL wrF (parameters k') ++ " " ++ wrL wrF rest)
-    | .error e => pure (wrKErr e))
+    | .error e => pure (wrKErr e)),
+  ("kernel.roundtrip", do
+    let _ ← Wire.next; let k ← rdK; let X ← rdPts
+    match roundTrip k X with
+    | .ok (ps, m) => pure (wrL wrF ps ++ " " ++ wrMat m)
+    | .error e => pure (wrKErr e)),
+  ("spec.kernel.matern_closed", do
+    let _ ← Wire.next; let sel ← rdN; let l ← rdF; let X ← rdPts; let X' ← rdPts
+    pure (wrMat (X.map (fun x => X'.map (fun x' => maternClosed sel l x x')))))
 ]
 
 end HandDispatchC16
